@@ -265,6 +265,10 @@ def run(tier, seed):
     tasks += [(sub, style, offer, banner) for sub in subsets([2048, 3072, 4096]) for style in STYLES for offer in OFFERS for banner in ODD_BANNERS]
     split = [(1024,), (2048,), (3072,), (4096,), (2048, 4096), (1536, 3072)]
     tasks += [(('split', a, b), style, 'both', banner) for a in split for b in split if a != b for style in STYLES for banner in BANNERS]
+    # moduli whose size is not one of the customary ones, on both sides of every threshold of the statement (a server is free to hand out
+    # any size; the lenient and round-up styles do so whatever range was requested)
+    odd = [(n,) for n in (1023, 1025, 2040, 2047, 2049, 2056, 3064, 3071, 3073, 3080, 4095, 4097, 8191)] + [(2047, 4096), (2049, 3071), (3071, 3073), (2047, 2048, 2049)]
+    tasks += [(sub, style, offer, banner) for sub in odd for style in STYLES for offer in OFFERS for banner in BANNERS]
     if tier == 'quick':
         # servers whose smallest (or only other) modulus lies above every range the probe sequence asks for
         tasks += [(sub, style, offer, banner) for sub in LARGE_SETS for style in STYLES
@@ -291,7 +295,7 @@ def run(tier, seed):
              '{OpenSSH, other}, text and JSON; plus every message-level fault (close, stall, reset, garbage, wrong lengths/type, debug, duplicate, '
              'refuse, timeout) at every probe connection of three representative servers%s' % (
                  sizes, 2 ** len(sizes), ('; plus the size sets %s (moduli above every requested range)' % (LARGE_SETS,) if tier == 'quick' else '') +
-                 '; plus servers handing the two algorithms different moduli (30 ordered pairs of size sets)'),
+                 '; plus servers handing the two algorithms different moduli (30 ordered pairs of size sets); plus 17 size sets next to every threshold (1023..8191, not multiples of 8 included) under all four styles'),
         assumptions=['expected size is read from the scripted server\'s own log of GEX requests and groups handed out',
                      'OpenSSH selection style modelled after dh.c choose_dh()'],
         exhaustive=True, traces_validated=validated, extra={'servers': len(tasks)})
